@@ -361,6 +361,7 @@ def run(ctx):
     ctx.sample({"format": "bed6", "source": "chr1\t007\t+12\tr0\t05\t+\n...", "program": [["fancy", [2, 2, 0]], ["concat-right", ["slice", None, None, -1]], ["replace", ["score"]]]})
     ctx.floor("judged:write:bed6", ctx.pick(20, 300))
     ctx.floor("judged:write:sam", ctx.pick(20, 300))
+    ctx.floor("access_steps", ctx.pick(20, 400))       # the un-decoded / lazy-view variants must actually have run
 
 
 def replay(ctx, w):
